@@ -19,7 +19,7 @@ TraceNext ==
          pre == IF a.a = "InitChain" THEN GInit0 ELSE gs
          pred == GStepP(pre, a)
          r == RealOf(e.post)
-         post0 == Adopt(pred, r)
+         post0 == [Adopt(pred, r) EXCEPT !.accex = e.post.accex]
          post == IF a.a = "Tx" THEN [post0 EXCEPT !.lastRes = e.res.class] ELSE post0
          div == {f \in ObsG : pred[f] # r[f]} \cup (IF a.a = "Tx" /\ pred.lastRes # e.res.class THEN {"lastRes"} ELSE {})
                 \cup (IF e.res.class = "halt" THEN {"halt"} ELSE {})
